@@ -31,6 +31,13 @@ static int cr_victim_gone(void);      /* in-process server: victim reaped? */
 static void cr_gate_fire(void);       /* in-process server: kill + reap the victim now */
 static int cr_fserver_gone(void);     /* harness-side client: forked server reaped? */
 static int cr_idle_point(void);       /* in-process server loop is idle; returns 1 to stop the loop */
+static void cr_fserver_idle_kill(void); /* harness-side client: SIGKILL + reap the (idle) forked server */
+
+/* server-death direction, the armed call of the server is never reached and the client waits for
+ * ever: the server is killed while it sits idle, after it made no call for this long (real time) */
+#define CR_IDLE_PATIENCE_US 250000
+static int cr_idle_kill_armed = 0;
+static int cr_idle_killed = 0;
 
 static int64_t cr_vclock_ms = 0;      /* virtual clock of the harness-side client */
 static int64_t cr_call_vstart = 0;    /* virtual time at which the API call under test began */
@@ -342,6 +349,7 @@ int poll(struct pollfd *fds, nfds_t n, int timeout)
 	if (cr_role == CR_ROLE_HCLIENT) {
 		/* virtual clock: time passes only while the forked server is dead */
 		int64_t t0 = cr_now_us();
+		int seen = sh ? sh->s_ncalls : 0;
 		for (;;) {
 			r = real_poll(fds, n, 0);
 			if (r != 0 || timeout == 0) break;
@@ -362,6 +370,10 @@ int poll(struct pollfd *fds, nfds_t n, int timeout)
 				cr_vclock_ms += timeout;
 				r = 0;
 				break;
+			}
+			if (timeout < 0 && cr_idle_kill_armed) {
+				if (sh->s_ncalls != seen) { seen = sh->s_ncalls; t0 = cr_now_us(); }
+				else if (cr_now_us() - t0 > CR_IDLE_PATIENCE_US) { cr_fserver_idle_kill(); cr_idle_killed = 1; }
 			}
 			cr_real_sleep_us(200);
 		}
